@@ -410,4 +410,23 @@ theorem tie_command_trace (cfg : Nat → LockCfg) (call : Call) (wrapper : Bool)
     progOfRows (callTable.map rowOf) wrapper (cfg (callInst call)) call = some (realG cfg call) := by
   rw [tie_callTable]; cases call <;> cases wrapper <;> rfl
 
+/-- Go's `select` with one receive case and a `default`: the receive case is taken iff it is ready -/
+def gateOfSelect (sel : List (String × String)) (ctxDone brkOpen : Bool) : Option GateOut :=
+  match sel with
+  | [(c1, b1), (c2, b2)] =>
+    if c1 = "<-ctx.Done()" ∧ b1 = "return ctx.Err()" ∧ c2 = "default" ∧
+        b2 = "return cb.DoWithAcceptable(req, acceptable)" then
+      some (if ctxDone then .ctxErr else if brkOpen then .unavailable else .pass)
+    else none
+  | _ => none
+
+/-- **go-zero's breaker hook is the model's `breakerGate`**: every command goes through
+`h.brk.DoWithAcceptableCtx(ctx, next…, acceptable)` (script commands are not in `ignoreCmds`' bypass branch's way:
+the bypass only skips the breaker), whose body is the select "context done → its error, else the breaker decides" -/
+theorem tie_breakerGate (ctxDone brkOpen : Bool) :
+    gateOfSelect breakerSelect ctxDone brkOpen = some (breakerGate ctxDone brkOpen) ∧
+    breakerProcessHook = ["if _, ok := ignoreCmds[cmd.Name()]; ok {", "return next(ctx, cmd)", "}",
+      "return h.brk.DoWithAcceptableCtx(ctx, func() error { return next(ctx, cmd) }, acceptable)"] := by
+  cases ctxDone <;> cases brkOpen <;> decide
+
 end GoZero.C19.Tie
